@@ -150,7 +150,7 @@ export async function check(group, records) {
 
 export function meta({ tier }) {
   return {
-    rule: `Event-name sets (1-4 of 8 names incl. ':' and '-') x 10 encodings (function type, alias of function type, union of function types, call-signature literal / interface / exported interface, extends chain over three interfaces, property syntax, intersection of function type and call signatures, duplicated signatures) with literal unions inline or through 1-2 alias hops x declaration order (before / after / mixed) x module / local scope x second-parameter form (identifier, object pattern, array pattern with SetupContext<E>; absent, unannotated, or annotated with another type => no emits expected) x arrow / function setup. ${tier === 'quick' ? 10000 : 250000} cases (+ shared-base multi-component modules). The emits option received by the mock defineComponent is compared as a set.`,
+    rule: `Event-name sets (1-4 of 8 names incl. ':' and '-') x 10 encodings (function type, alias of function type, union of function types, call-signature literal / interface / exported interface, extends chain over three interfaces, property syntax, intersection of function type and call signatures, duplicated signatures) with literal unions inline or through 1-2 alias hops x declaration order (before / after / mixed) x module / local scope x second-parameter form (identifier, object pattern, array pattern with SetupContext<E>; absent, unannotated, or annotated with another type => no emits expected) x arrow / function setup. ${tier === 'quick' ? 10000 : 250000} cases (+ shared-base multi-component modules, hand-written options other than emits next to the setup function, the empty event set in 6 encodings, and same-named literal-union aliases in different scopes with several components). The emits option received by the mock defineComponent is compared as a set.`,
     assumptions: ['duplicates in the emitted array are tolerated (compared as a set)'],
   };
 }
